@@ -1739,7 +1739,9 @@ func ruleR20_15(r *Run) {
 						continue
 					}
 					kk, isK := constInt(bo.Y)
-					if !isK || derivesNV(bo.X) == nil {
+					// the test must be on the allocated length itself: a positive voxel count times the bytes
+					// per voxel can still overflow to a negative length
+					if !isK || stripConv(bo.X) != stripConv(mk.Len) {
 						continue
 					}
 					// the edge on which the count is known positive
@@ -1755,7 +1757,7 @@ func ruleR20_15(r *Run) {
 					}
 				}
 				r.check(guarded, fmt.Sprintf("%s:make#%d:positive-voxel-count", fname(f), k), "the allocation is on the 'count > 0' edge of a test of the voxel count",
-					"a buffer is allocated with a length derived from the request geometry's voxel count without rejecting counts ≤ 0: a negative size component (or a product overflowing int64) makes make() panic, and the request is answered by the panic handler instead of being rejected", w.pos(mk.Pos()))
+					"a buffer is allocated with a length derived from the request geometry's voxel count without rejecting a non-positive length (the test, if any, is on another value than the allocated length): a negative size component, or bytes-per-voxel × count overflowing int64, makes make() panic, and the request is answered by the panic handler instead of being rejected", w.pos(mk.Pos()))
 			}
 		}
 	}
